@@ -72,10 +72,15 @@ def sync_run(sc):
         import logging
         hat.LOG = logging.getLogger("x")
         line = ("J%02X\n" % outcome[1]) if outcome[0] == "val" else "N\n"
+        hatmode = sc.get("hat", "normal")
 
         class Ser:
             def __init__(self):
                 self.lines = [line.encode()] * (2 if d["twice"] else 1)
+                if hatmode == "silent":
+                    self.lines = []                                 # the hat says nothing at all: no answer
+                elif hatmode == "foreign":
+                    self.lines = [b"HFF00\n"] + self.lines          # a line that is no reply to this command comes first
 
             def write(self, data):
                 return len(data)
@@ -253,6 +258,13 @@ def sync_scenarios():
                 if drv == "atx" and outcome[0] == "err":
                     continue
                 scs.append({"driver": drv, "key": key, "n": 5, "outcome": outcome, "sync": 1, "tag": "sync"})
+    # the ATX hat: every kind of command incl. the search-address commands, with a hat that stays silent (no answer) and
+    # with a line that is no reply to the command arriving first (skipped: the command's own reply follows)
+    for key in ("sah", "sam", "sal", "dtr", "dapc", "q16", "yn16", "cfg"):
+        scs.append({"driver": "atx", "key": key, "n": 0xA5, "outcome": ["none", 0], "sync": 1, "tag": "sync"})
+        scs.append({"driver": "atx", "key": key, "n": 0xA5, "outcome": ["none", 0], "hat": "silent", "sync": 1, "tag": "sync-silent"})
+        for outcome in (["none", 0], ["val", 0x42]):
+            scs.append({"driver": "atx", "key": key, "n": 0xA5, "outcome": outcome, "hat": "foreign", "sync": 1, "tag": "sync-foreign"})
     # two threads sharing the ATX hat driver (its send() is documented as thread safe by the lock it holds)
     for unit in ([["q16", 1], ["st16", 2]], [["cfg", 1], ["q16", 2]], [["q16", 1], ["dapc", 2]], [["yn16", 3], ["q16", 4]]):
         scs.append({"driver": "atx", "unit": unit, "outcomes": [["val", 42], ["val", 129]], "sync": 3, "tag": "sync-threads"})
